@@ -62,8 +62,23 @@ def table : List (String × String × String × Func) :=
    ("mul", "MultiplyFunc", "cty.Number", mulF), ("div", "DivideFunc", "cty.Number", divF),
    ("mod", "ModuloFunc", "cty.Number", modF)]
 
+/-! ### `assertnotnull` (conversion.go): `Type` answers the argument's type, `Impl` the argument -/
+
+def assertNotNullType : Fn.TypeFn
+  | a :: _ => .ok a.ty
+  | _ => .panic "index out of range"
+def assertNotNullImpl : Fn.ImplFn
+  | a :: _, _ => .ok a
+  | _, _ => .panic "index out of range"
+def assertNotNullF : Func := ⟨spec1 { ty := .dyn }, fun _ => assertNotNullType, fun _ => assertNotNullImpl⟩
+
+/-- (harness name, Go variable, model) of dynamically typed functions modelled in this slice -/
+def dynTable : List (String × String × Func) := [("assertnotnull", "AssertNotNullFunc", assertNotNullF)]
+
 def byName (name : String) : Option Func :=
-  (table.find? fun e => e.1 == name).map (·.2.2.2)
+  match (table.find? fun e => e.1 == name).map (·.2.2.2) with
+  | some f => some f
+  | none => (dynTable.find? fun e => e.1 == name).map (·.2.2)
 
 
 /-! ### the string functions that are `cty.StringVal ∘ library` (string.go, string_replace.go): the
